@@ -40,3 +40,25 @@ Check (C04.C04_written_file_query : forall two_pass fp o sizes autosql input f,
   bb_write_either two_pass fp o sizes autosql input = Ok f -> file_hyps o sizes input f ->
   exists i, read_info f = Ok i /\ forall infl c es s e, In (c, es) (bruns input) ->
     bb_interval infl f i c s e = Ok (filter (bkeep s e) es)).
+
+(* ---- compressed files ---- *)
+From BT Require Import Model.BigWigWriteZ Model.BigBedWriteZ Proofs.BedFileZ Proofs.BedFileZThms.
+Check (C04.C04_written_file_query_compressed : forall cmp two_pass fp o sizes autosql input f,
+  bb_write_either_z cmp two_pass fp o sizes autosql input = Ok f -> file_hyps o sizes input f -> ubuf_fits o input ->
+  exists i, read_info f = Ok i /\ forall infl, (o_compress o = true -> forall b, infl (cmp b) = b) ->
+    forall c es s e, In (c, es) (bruns input) -> bb_interval infl f i c s e = Ok (filter (bkeep s e) es)).
+Check (C04.C04_file_no_miss_no_disjoint_compressed : forall cmp two_pass fp o sizes autosql input f,
+  bb_write_either_z cmp two_pass fp o sizes autosql input = Ok f -> file_hyps o sizes input f -> ubuf_fits o input ->
+  exists i, read_info f = Ok i /\ forall infl, (o_compress o = true -> forall b, infl (cmp b) = b) ->
+    forall c es s e, In (c, es) (bruns input) ->
+    exists ans, bb_interval infl f i c s e = Ok ans
+      /\ (forall x, In x es -> e_start x < e -> s < e_end x -> In x ans)
+      /\ (forall x, In x ans -> In x es /\ s <= e_end x /\ e_start x <= e)
+      /\ ans = filter (bkeep s e) es).
+Check (C04.C04_history_compressed : forall cmp two_pass fp o sizes autosql input f,
+  bb_write_either_z cmp two_pass fp o sizes autosql input = Ok f -> file_hyps o sizes input f -> ubuf_fits o input ->
+  exists i, read_info f = Ok i /\ forall infl, (o_compress o = true -> forall b, infl (cmp b) = b) ->
+    forall c qs, cache_ok infl f i c ->
+      c_bb_history infl f i c qs = map (fun q => bb_interval infl f i (fst (fst q)) (snd (fst q)) (snd q)) qs
+      /\ Forall2 (fun q a => forall es, In (fst (fst q), es) (bruns input) -> a = Ok (filter (bkeep (snd (fst q)) (snd q)) es))
+                 qs (c_bb_history infl f i c qs)).
